@@ -19,21 +19,32 @@ Theorem C07_current_loader_faithful :
   exists l, loader_of (f_loader current_facts) = Some l /\ loader_faithful l.
 Proof. exists load_std. split; [vm_compute; reflexivity|intros k q; reflexivity]. Qed.
 
+(** ApplyEvmMsg as it stands in /repo runs a contract creation with the nonce of its transaction *)
+Theorem C07_current_pre_resets_creations :
+  exists p, pre_of (f_pre current_facts) = Some p /\ pre_create_resets p.
+Proof.
+  destruct (pre_of (f_pre current_facts)) as [p|] eqn:E; [|vm_compute in E; discriminate].
+  exists p. split; [reflexivity|]. intros cur n.
+  destruct (f_pre current_facts); vm_compute in E; inversion E; reflexivity.
+Qed.
+
 (** for every assignment of auth account types to addresses and whatever the messages touch *)
 Theorem C07_holds_for_current_tree :
-  forall l, loader_of (f_loader current_facts) = Some l ->
+  forall l p, loader_of (f_loader current_facts) = Some l -> pre_of (f_pre current_facts) = Some p ->
   forall chain recover kinds A s ts, hash_binding chain recover ts ->
-  P chain recover A s (trace chain recover kinds l evm_ante_chain s ts) /\
-  (forall u, (count_occ Nat.eq_dec (all_executed (trace chain recover kinds l evm_ante_chain s ts)) u <= 1)%nat) /\
+  P chain recover A s (trace chain recover kinds l p evm_ante_chain s ts) /\
+  (forall u, (count_occ Nat.eq_dec (all_executed (trace chain recover kinds l p evm_ante_chain s ts)) u <= 1)%nat) /\
   (forall t a, proj a (tx_claims chain recover t) = [] ->
-               fst (deliver chain recover kinds l evm_ante_chain s t) a = s a).
+               fst (deliver chain recover kinds l p evm_ante_chain s t) a = s a).
 Proof.
-  intros l Hl chain recover kinds A s ts Hb.
+  intros l p Hl Hp chain recover kinds A s ts Hb.
   assert (Hf : loader_faithful l).
   { destruct C07_current_loader_faithful as [l' [Hl' Hf]]. congruence. }
+  assert (Hr : pre_create_resets p).
+  { destruct C07_current_pre_resets_creations as [p' [Hp' Hr]]. congruence. }
   split; [|split].
-  - exact (C07_model_satisfies_P chain recover kinds l Hf A evm_ante_chain s ts C07_current_chain_wf Hb).
-  - intro u. exact (C07_at_most_once chain recover kinds l Hf evm_ante_chain s ts u C07_current_chain_wf Hb).
-  - intros t a. exact (C07_only_own_txs_move_sequence chain recover kinds l Hf evm_ante_chain s t a C07_current_chain_wf).
+  - exact (C07_model_satisfies_P chain recover kinds l Hf p Hr A evm_ante_chain s ts C07_current_chain_wf Hb).
+  - intro u. exact (C07_at_most_once chain recover kinds l Hf p Hr evm_ante_chain s ts u C07_current_chain_wf Hb).
+  - intros t a. exact (C07_only_own_txs_move_sequence chain recover kinds l Hf p Hr evm_ante_chain s t a C07_current_chain_wf).
 Qed.
 Print Assumptions C07_holds_for_current_tree.
